@@ -49,3 +49,48 @@ func OpenFile(name string, flag int, perm os.FileMode) (*os.File, error) {
 	}
 	return os.OpenFile(name, flag, perm)
 }
+
+// Further calls into the host that the instrumented code makes by path. HostHook, when
+// set, is consulted first: an error it returns is what the call reports (the host
+// refuses). With EnableHostPoints every such call is a scheduling point inside the
+// window, so that two requests interleave between two looks at the file system.
+var HostHook func(op, path string) error
+
+func EnableHostPoints() {
+	if e := ex; e != nil {
+		e.hostPoints = true
+	}
+}
+
+func hostCall(what, path string) error {
+	if e := ex; e != nil && !e.dead && e.hostPoints && e.window {
+		e.point(op{kind: KYield})
+	}
+	if HostHook != nil {
+		if err := HostHook(what, path); err != nil {
+			return &os.PathError{Op: what, Path: path, Err: err}
+		}
+	}
+	return nil
+}
+
+func Readlink(name string) (string, error) {
+	if err := hostCall("readlink", name); err != nil {
+		return "", err
+	}
+	return os.Readlink(name)
+}
+
+func Stat(name string) (os.FileInfo, error) {
+	if err := hostCall("stat", name); err != nil {
+		return nil, err
+	}
+	return os.Stat(name)
+}
+
+func Lstat(name string) (os.FileInfo, error) {
+	if err := hostCall("lstat", name); err != nil {
+		return nil, err
+	}
+	return os.Lstat(name)
+}
